@@ -32,28 +32,28 @@ _CTX = {}
 def kernel_list(tier):
     # (name, element type, element bytes, constructor, value expression, family)
     ks = [
-        ("z_u8", "UInt8", 1, "zero", None, "zero"),
-        ("z_bool", "Bool", 1, "zero", None, "zero"),
-        ("z_i32", "Int32", 4, "zero", None, "zero"),
-        ("z_i64", "Int64", 8, "zero", None, "zero"),
-        ("f_t16", "(Int64, Int64)", 16, "fill", "(1, 2)", "fill"),
-        ("f_t24", "(Int64, Int64, Int64)", 24, "fill", "(1, 2, 3)", "fill"),
-        ("f_unit", "()", 0, "fill", "()", "fill"),
+        ("zu8", "UInt8", 1, "zero", None, "zero"),
+        ("zbool", "Bool", 1, "zero", None, "zero"),
+        ("zi32", "Int32", 4, "zero", None, "zero"),
+        ("zi64", "Int64", 8, "zero", None, "zero"),
+        ("ft16", "(Int64, Int64)", 16, "fill", "(1, 2)", "fill"),
+        ("ft24", "(Int64, Int64, Int64)", 24, "fill", "(1, 2, 3)", "fill"),
+        ("funit", "()", 0, "fill", "()", "fill"),
     ]
     if tier == "thorough":
         ks += [
-            ("z_f64", "Float64", 8, "zero", None, "zero"),
-            ("z_f32", "Float32", 4, "zero", None, "zero"),
-            ("z_char", "Char", 4, "zero", None, "zero"),
-            ("f_i64", "Int64", 8, "fill", "7", "fill"),
-            ("f_i32", "Int32", 4, "fill", "7i32", "fill"),
-            ("f_u8", "UInt8", 1, "fill", "7u8", "fill"),
-            ("f_bool", "Bool", 1, "fill", "true", "fill"),
-            ("d_i64", "Int64", 8, "new_default", None, "new_default"),
-            ("d_i32", "Int32", 4, "new_default", None, "new_default"),
-            ("d_u8", "UInt8", 1, "new_default", None, "new_default"),
-            ("f_t12", "(Int32, Int64)", 16, "fill", "(1i32, 2)", "fill"),
-            ("f_t40", "(Int64, Int64, Int64, Int64, Int64)", 40, "fill", "(1, 2, 3, 4, 5)", "fill"),
+            ("zf64", "Float64", 8, "zero", None, "zero"),
+            ("zf32", "Float32", 4, "zero", None, "zero"),
+            ("zchar", "Char", 4, "zero", None, "zero"),
+            ("fi64", "Int64", 8, "fill", "7", "fill"),
+            ("fi32", "Int32", 4, "fill", "7i32", "fill"),
+            ("fu8", "UInt8", 1, "fill", "7u8", "fill"),
+            ("fbool", "Bool", 1, "fill", "true", "fill"),
+            ("di64", "Int64", 8, "new_default", None, "new_default"),
+            ("di32", "Int32", 4, "new_default", None, "new_default"),
+            ("du8", "UInt8", 1, "new_default", None, "new_default"),
+            ("ft12", "(Int32, Int64)", 16, "fill", "(1i32, 2)", "fill"),
+            ("ft40", "(Int64, Int64, Int64, Int64, Int64)", 40, "fill", "(1, 2, 3, 4, 5)", "fill"),
         ]
     return [dict(name=k[0], ty=k[1], elem=k[2], ctor=k[3], val=k[4], family=k[5]) for k in ks]
 
@@ -66,12 +66,12 @@ def source(kernels):
             call = "Array[%s]::fill(n, %s)" % (k["ty"], k["val"])
         else:
             call = "Array[%s]::%s(n)" % (k["ty"], k["ctor"])
-        out.append("@NeverInline fn k_%s(n: Int64): Array[%s] { %s }" % (k["name"], k["ty"], call))
+        out.append("@NeverInline fn k%s(n: Int64): Array[%s] { %s }" % (k["name"], k["ty"], call))
     out.append("fn main() {")
     out.append("  let which = arg(0i32);")
     out.append("  let n = id(arg(1i32));")
     for i, k in enumerate(kernels):
-        out.append("  if which == %d { let a = k_%s(n); println(\"size=${a.size()}\"); }" % (i, k["name"]))
+        out.append("  if which == %d { let a = k%s(n); println(\"size=${a.size()}\"); }" % (i, k["name"]))
     out.append("}")
     return "\n".join(out) + "\n"
 
@@ -177,7 +177,7 @@ def analyse(job):
     res = {"kernel": k["name"], "backend": backend, "elem": k["elem"], "family": k["family"], "status": "ok",
            "candidates": [], "vacuity": {}, "queries": [], "validation_inputs": [], "notes": []}
     n = z3.BitVec("n", 64)
-    fn = build.mangle("k_" + k["name"])
+    fn = build.mangle("k" + k["name"])
     verd = smt.Verdicts("c13/%s-%s" % (k["name"], backend), tier)
     try:
         env = make_env(n)
@@ -277,7 +277,8 @@ def analyse(job):
             ex2 = sem.Explorer(prog, env2, sem.Limits(max_visits=K + 3, max_paths=400, deadline_s=240))
             paths2 = ex2.explore(fn)
             j = z3.BitVec("j", 64)
-            alts = []
+            worst = "unsat"
+            nq = 0
             for p in paths2:
                 if p.term.kind == "loopcut":
                     raise Unsupported("zero-initialisation loop not finished within the bound")
@@ -287,14 +288,19 @@ def analyse(job):
                 if not al:
                     continue
                 obj = al[0][1] if al[0][0] == "alloc_fast" else al[0][2]
-                alts.append(z3.And(p.pc(), z3.UGE(j, BV(HEADER, 64)), z3.ULT(j, BV(HEADER, 64) + n * BV(k["elem"], 64)),
-                                   z3.Select(p.heap, obj + j) != BV(0, 8)))
-            if alts:
-                r, m = verd.check("zero-init-n<=%d" % K, list(env2.assumptions) + [z3.Or(*alts)])
-                res["queries"].append({"class": "valid", "group": "zero-init<=%d" % K, "result": r})
+                q = [p.pc(), z3.UGE(j, BV(HEADER, 64)), z3.ULT(j, BV(HEADER, 64) + n * BV(k["elem"], 64)),
+                     z3.Select(p.heap, obj + j) != BV(0, 8)]
+                r, m = verd.check("zero-init-n<=%d-path%d" % (K, nq), list(env2.assumptions) + q)
+                nq += 1
                 if r == "sat":
+                    worst = "sat"
                     res["candidates"].append({"class": "valid", "group": "zero-init", "n": sem.model_int(m, n, 64),
                                               "why": ["element byte %d not zero-initialised" % sem.model_int(m, j)]})
+                    break
+                if r == "unknown":
+                    worst = "unknown"
+            if nq:
+                res["queries"].append({"class": "valid", "group": "zero-init<=%d (%d paths)" % (K, nq), "result": worst})
             res["zero_init_paths"] = len(paths2)
             res["steps"] += ex2.stats["steps"]
     except Unsupported as e:
@@ -453,7 +459,7 @@ def run_check(tier, repo_note=""):
         "programs": len(analysed),
         "disagreements_checked": replays,
         "samples": samples,
-        "functions_encoded": sorted(set("k_%s/%s" % (r["kernel"], r["backend"]) for r in analysed)),
+        "functions_encoded": sorted(set("k%s/%s" % (r["kernel"], r["backend"]) for r in analysed)),
         "bounds": {"n": "all of Int64", "loop_cut": "2 visits per instruction", "zero_init_full_for_n_le": 3 if tier == "quick" else 6,
                    "element_sizes": sorted(set(k["elem"] for k in kernels))},
         "queries": q_total, "solver_time_s": round(st_total, 2),
